@@ -1,10 +1,10 @@
 (* C15 - scheduler bookkeeping stays in bounds and assigns every task exactly once.
    Statements only; proofs live in rt/SchedArithThm.v (over the GENERATED arithmetic of
    gen/SchedArith.v), rt/Routing.v and rt/SchedThm.v (transition system of rt/Sched.v). *)
-From Coq Require Import ZArith List Bool.
+From Coq Require Import ZArith List Bool Lia.
 Import ListNotations.
 From Coq Require Import Permutation.
-From BQ Require Import rt.SchedPre gen.SchedArith rt.SchedArithThm rt.Routing rt.Sched rt.SchedAssign rt.SchedLocal rt.SchedThm.
+From BQ Require Import rt.SchedPre gen.SchedArith rt.SchedArithThm rt.Routing rt.Sched rt.SchedAssign rt.SchedLocal rt.SchedThm rt.SchedNode.
 Open Scope Z_scope.
 
 (* ---- generated arithmetic ---- *)
@@ -172,6 +172,46 @@ Example C15_system_nonvacuous : exists st, run (init 0 2) ex_run = Done st /\ qu
   /\ cancel_free d9_witness = false.
 Proof.
   eexists. split; [vm_compute; reflexivity|]. split; [vm_compute; reflexivity|]. split; [reflexivity|]. split; reflexivity.
+Qed.
+
+(* ---- manager topology (partial): bounds at ANY node, assume/guarantee over the tree ---- *)
+
+(* the statement targeted for the whole tree; proved per node below, under the assumption that the
+   read receipt is found (proved only for the flat system, C15_receipt_found) *)
+Definition C15_idle_in_bounds_tree_full : Prop :=
+  forall (s : server) w e n r, node_ok s -> nth_error (s_emps s) w = Some e -> 0 <= n <= e_total e ->
+  match srv_waiting s w n r with Done s' => node_ok s' | _ => False end.
+
+(* a node whose employees may be managers (total_workers arbitrary): a WAITING (n, r) with
+   0 <= n <= e.total_workers either is answered with all counters in bounds (the assertion cannot fire) or
+   the only possible exception is "read receipt not found" *)
+Theorem C15_idle_in_bounds_node_partial : forall s w e n r,
+  node_ok s -> nth_error (s_emps s) w = Some e -> 0 <= n <= e_total e ->
+  match srv_waiting s w n r with
+  | Done s' => node_ok s'
+  | Disabled => False
+  | Fault ex => ex = RuntimeError /\ get_num_of_tasks_sent_since (e_cache e) r = Raise RuntimeError
+  end.
+Proof. exact node_waiting. Qed.
+
+Theorem C15_schedule_in_bounds_node : forall s ts sh rs, node_ok s -> s_emps s <> [] ->
+  match schedule_tasks s ts sh rs with Done (s', _) => node_ok s' | Disabled => True | Fault _ => False end.
+Proof. exact node_schedule. Qed.
+
+(* guarantee towards the boss: the WAITING a manager sends up carries its own (in-bounds) idle count *)
+Theorem C15_manager_waiting_in_bounds : forall (T : Type) s last mrrs up (out : list (action T)), node_ok s ->
+  exists last' acts, update_upstream_idle_workers (s_num_idle s) last mrrs up out = Ok (last', out ++ acts)
+    /\ forall d m p, In (APut d m p) acts -> d = up /\ m = M_WAITING /\ p = PWait (s_num_idle s) mrrs /\ 0 <= s_num_idle s <= s_total s.
+Proof. exact manager_waiting_in_bounds. Qed.
+
+Example C15_node_nonvacuous :
+  node_ok (mkSrv 0 5 [mkEmp 3 2 1 [(7, 2)]; mkEmp 2 0 2 []] 3 5)
+  /\ srv_waiting (mkSrv 0 5 [mkEmp 3 2 1 [(7, 2)]; mkEmp 2 0 2 []] 3 5) 0 3 (Some 7)
+     = Done (mkSrv 0 5 [mkEmp 3 2 3 [(7, 2)]; mkEmp 2 0 2 []] 5 5).
+Proof.
+  split; [|reflexivity]. split; [|split; reflexivity].
+  intros e [<-|[<-|[]]]; split; simpl; try lia; intros a c H; try contradiction.
+  destruct H as [H|[]]. inversion H. lia.
 Qed.
 
 (* ---- C07_routing (cited by C07) ---- *)
